@@ -833,6 +833,9 @@ func c09Merge(p *Prog, rp *Report) *Rule {
 			{nil, map[string]string{}, []string{"P", "Q"}, map[string]string{"P": "1", "Q": "2"}},
 			{[]string{"A", "Empty", "Description-pt_BR.UTF-8", "B"}, map[string]string{"A": "a", "Empty": "", "Description-pt_BR.UTF-8": "t", "B": ""}, []string{"New-Empty", "X_y", "A"}, map[string]string{"New-Empty": "", "X_y": "u", "A": ""}},
 			{[]string{"K"}, map[string]string{"K": "v"}, nil, map[string]string{}},
+			// keys are matched byte for byte (as the decoder matches them): an unknown field that differs from a
+			// known one only in case is another field, and the known one is still added with its value
+			{[]string{"source", "Version"}, map[string]string{"source": "legacy", "Version": "1"}, []string{"Source", "Version", "VERSION"}, map[string]string{"Source": "bar", "Version": "2", "VERSION": "3"}},
 		}
 		for _, c := range cases {
 			m := NewMachine(p, nil)
